@@ -102,6 +102,12 @@ fn add_stats(acc: &mut BTreeMap<String, u64>, s: &Stats) {
         for (k, v) in m {
             if let Some(x) = v.as_u64() {
                 *acc.entry(k).or_insert(0) += x;
+            } else if let Value::Object(pm) = v {
+                for (pk, pv) in pm {
+                    if let Some(x) = pv.as_u64() {
+                        *acc.entry(format!("probe:{}", pk)).or_insert(0) += x;
+                    }
+                }
             }
         }
     }
